@@ -88,8 +88,13 @@ class MuckMonitor:
             from .c02 import real_strength as strength
         nb = st.board_count
         boards = [[repr(c) for c in st.get_board_cards(b)] for b in range(nb)]
-        hands = [[[strength(holes[i] + boards[b], t) for t in tn] for b in range(nb)] if live[i]
-                 else [[None] * len(tn)] * nb for i in range(n)]
+        if ctx.job.get('real') == 'hole+board':
+            from .c02 import real_strength_hb
+            hands = [[[real_strength_hb(holes[i], boards[b], t) for t in tn] for b in range(nb)] if live[i]
+                     else [[None] * len(tn)] * nb for i in range(n)]
+        else:
+            hands = [[[strength(holes[i] + boards[b], t) for t in tn] for b in range(nb)] if live[i]
+                     else [[None] * len(tn)] * nb for i in range(n)]
         exp, info = P.award(n, acc['contrib'], acc['pooled'], live, hands, nb, len(tn), C.DIVMODS.get(ctx.cfg.get('divmod'), P.ref_divmod),
                             lambda a: st.rake(a, st))
         ctx.counters['showdowns_compared'] += 1
